@@ -448,12 +448,32 @@ def canonical_stmts(tree: ast.Module) -> ast.Module:
         if isinstance(node, ast.ClassDef) and not node.decorator_list and not node.keywords \
                 and all(ast.unparse(b) in ("object",) for b in node.bases):
             members = [b for b in node.body if not (isinstance(b, ast.Expr) and isinstance(b.value, ast.Constant)) and not isinstance(b, ast.Pass)]
-            if members and all((isinstance(b, ast.Assign) and len(b.targets) == 1 and isinstance(b.targets[0], ast.Name) and _is_literal(b.value))
-                               or (isinstance(b, ast.AnnAssign) and isinstance(b.target, ast.Name) and b.value is not None and _is_literal(b.value))
-                               for b in members):
-                for b in members:
-                    tgt_ = b.targets[0] if isinstance(b, ast.Assign) else b.target
-                    ns_consts[(node.name, tgt_.id)] = b.value
+            local: dict[str, ast.AST] = {}
+
+            def resolve(v):
+                # a literal, an earlier member, or a display of those (ALL = (SPAN, MAX_DIFF))
+                if _is_literal(v):
+                    return v
+                if isinstance(v, ast.Name) and v.id in local:
+                    return local[v.id]
+                if isinstance(v, (ast.Tuple, ast.List)):
+                    items = [resolve(x) for x in v.elts]
+                    if all(x is not None for x in items):
+                        return ast.copy_location(type(v)(elts=[copy.deepcopy(x) for x in items], ctx=ast.Load()), v)
+                return None
+
+            okc = bool(members)
+            for b in members:
+                tgt_ = b.targets[0] if isinstance(b, ast.Assign) and len(b.targets) == 1 else b.target if isinstance(b, ast.AnnAssign) else None
+                val_ = getattr(b, "value", None)
+                r_ = resolve(val_) if isinstance(tgt_, ast.Name) and val_ is not None else None
+                if r_ is None:
+                    okc = False
+                    break
+                local[tgt_.id] = r_
+            if okc:
+                for k_, v_ in local.items():
+                    ns_consts[(node.name, k_)] = v_
     if ns_consts:
         stores = {(n.value.id, n.attr) for n in ast.walk(tree) if isinstance(n, ast.Attribute) and isinstance(n.ctx, (ast.Store, ast.Del))
                   and isinstance(n.value, ast.Name)}
@@ -474,6 +494,8 @@ def canonical_stmts(tree: ast.Module) -> ast.Module:
         if isinstance(n, ast.Global):
             for name in n.names:
                 consts.pop(name, None)
+    tree._mdpax_consts = dict(consts)
+    tree._mdpax_ns = dict(ns_consts)
     c = _StmtCanon(consts)
     for i, node in enumerate(tree.body):
         if isinstance(node, (ast.FunctionDef, ast.ClassDef)):
@@ -958,5 +980,48 @@ def positional_calls(ct) -> int:
                         continue
                 call.args = list(call.args) + [kw[p_] for p_ in take]
                 call.keywords = []
+                n_done += 1
+    return n_done
+
+
+# ------------------------------------------------------------------------------------------------ constants across modules
+def cross_module_constants(repo) -> int:
+    """`from .a import _LIMIT, _Names` ... `_LIMIT`, `_Names.SPAN`: literal constants and namespace classes of literal constants
+    imported from another module of the package are substituted where they are used."""
+    n_done = 0
+    for m in repo.modules.values():
+        imported_consts: dict[str, ast.AST] = {}
+        imported_ns: dict[tuple[str, str], ast.AST] = {}
+        for alias, dotted in m.imports.items():
+            modname, _, name = dotted.rpartition(".")
+            src = repo.modules.get(modname)
+            if src is None or src is m:
+                continue
+            consts = getattr(src.tree, "_mdpax_consts", {})
+            ns = getattr(src.tree, "_mdpax_ns", {})
+            if name in consts:
+                imported_consts[alias] = consts[name]
+            for (cls_, attr), v in ns.items():
+                if cls_ == name:
+                    imported_ns[(alias, attr)] = v
+        if not imported_consts and not imported_ns:
+            continue
+        rebound = {n.id for n in ast.walk(m.tree) if isinstance(n, ast.Name) and isinstance(n.ctx, ast.Store)}
+
+        class R(ast.NodeTransformer):
+            def visit_Attribute(self, n):
+                self.generic_visit(n)
+                if isinstance(n.ctx, ast.Load) and isinstance(n.value, ast.Name) and (n.value.id, n.attr) in imported_ns and n.value.id not in rebound:
+                    return ast.copy_location(copy.deepcopy(imported_ns[(n.value.id, n.attr)]), n)
+                return n
+
+            def visit_Name(self, n):
+                if isinstance(n.ctx, ast.Load) and n.id in imported_consts and n.id not in rebound:
+                    return ast.copy_location(copy.deepcopy(imported_consts[n.id]), n)
+                return n
+
+        for i_, node in enumerate(m.tree.body):
+            if isinstance(node, (ast.FunctionDef, ast.ClassDef)):
+                m.tree.body[i_] = ast.fix_missing_locations(R().visit(node))
                 n_done += 1
     return n_done
